@@ -384,6 +384,22 @@ Section Basics.
     eapply H3; eauto.
   Qed.
 
+  (* same, remembering that s1 is the state get_current_term returned *)
+  Lemma step_cases_eq (P : (pst + result V * pst) * list event -> Prop) s :
+    (ps_cursors s = [] -> P (inr (Crash CrEmptyStack, s), [])) ->
+    (forall s1 ev1, gctx s = (s1, None, ev1) -> gct_spec s (s1, None, ev1) -> P (inr (Reject, s1), ev1)) ->
+    (forall cursor cs s1 t ev1 r ev2,
+        ps_cursors s = cursor :: cs -> gctx s = (s1, Some t, ev1) -> gct_spec s (s1, Some t, ev1) ->
+        act_spec s1 cursor t (r, ev2) -> P (r, ev1 ++ ev2)) ->
+    P (stepx s).
+  Proof.
+    intros H1 H2 H3. unfold step. destruct (ps_cursors s) as [|cursor cs] eqn:Hcs; [auto|].
+    pose proof (gct_spec_holds s) as Hg. destruct (gctx s) as [[s1 ot] ev1] eqn:E.
+    destruct ot as [t|]; [|auto].
+    pose proof (act_spec_holds s1 cursor t) as Ha. destruct (actx s1 cursor t) as [r ev2].
+    eapply H3; eauto.
+  Qed.
+
   (* the term handed to [act] is the error token in recovery mode and the recorded term otherwise *)
   Lemma gct_term s s1 t ev : gct_spec s (s1, Some t, ev) ->
     (ps_rec s1 = true /\ t = err_idx g) \/ (ps_rec s1 = false /\ ps_term s1 = Some t).
@@ -416,3 +432,24 @@ Arguments plain_ev {V C}. Arguments final_res_ok {V C}. Arguments plain_lc {V C}
 Arguments gct_term {V C g opts buf lexer s s1 t ev}.
 Arguments gct_stacks {V C g opts buf lexer s s1 ot ev}.
 Arguments do_reduce_inl {V C g tbl cap rule_f s r s3 ev}.
+
+(* the table hypothesis is decidable: a checker to discharge it by computation on a concrete table *)
+Definition no_shift_colb (tbl : table) (c : nat) : bool :=
+  forallb (fun row => match nth_error row c with
+                      | Some e => match e_kind e with KShift => false | _ => true end
+                      | None => true
+                      end) tbl.
+Definition eof_err_not_shiftedb (g : grammar) (tbl : table) : bool :=
+  no_shift_colb tbl (nterm_count g + eof_idx g) && no_shift_colb tbl (nterm_count g + err_idx g).
+
+Lemma no_shift_colb_ok g tbl col : no_shift_colb tbl (nterm_count g + col) = true -> no_shift_col g tbl col.
+Proof.
+  intros H st e Hc Hk. unfold cell in Hc.
+  destruct (nth_error tbl st) as [row|] eqn:Hr; [|discriminate].
+  destruct (nth_error row (nterm_count g + col)) as [e'|] eqn:He; [|discriminate]. inversion Hc; subst e'.
+  unfold no_shift_colb in H. rewrite forallb_forall in H. specialize (H row (nth_error_In _ _ Hr)).
+  rewrite He, Hk in H. discriminate.
+Qed.
+
+Lemma eof_err_not_shiftedb_ok g tbl : eof_err_not_shiftedb g tbl = true -> eof_err_not_shifted g tbl.
+Proof. unfold eof_err_not_shiftedb. intros H. apply andb_true_iff in H as [H1 H2]. split; apply no_shift_colb_ok; assumption. Qed.
